@@ -66,6 +66,14 @@ def shapes(tier, seed):
                 [('org', C(1), None), ('data', '.byte', [V('d0')]), ('include', 'inc.asm'), ('data', '.byte', [V('d2')]), ('unmute',),
                  ('data', '.byte', [V('d3')])], hi, end=None,
                 files={'inc.asm': [('data', '.byte', [V('d4')]), ('mute',), ('data', '.byte', [V('d1')])]}))
+    # an #unmute with nothing muted changes nothing: the muted region after it stays out of the image
+    S.append(mk('stray-unmute-before-muted-region:end',
+                [('unmute',), ('org', C(1), None), ('data', '.byte', [V('d0')]), ('mute',), ('data', '.byte', [V('d1'), V('d2')]),
+                 ('unmute',), ('data', '.byte', [V('d3')])], hi if tier != 'quick' else 9))
+    S.append(mk('surplus-unmute-in-include:noend',
+                [('org', C(1), None), ('data', '.byte', [V('d0')]), ('include', 'inc.asm'), ('mute',), ('data', '.byte', [V('d1')]),
+                 ('unmute',), ('data', '.byte', [V('d3')]), ('mute',), ('data', '.byte', [V('d2')])], hi, end=None,
+                files={'inc.asm': [('mute',), ('data', '.byte', [V('d4')]), ('unmute',), ('unmute',), ('unmute',)]}))
     # the window is what the options say, also beyond the address space / beyond a redefined GLOBAL zone
     S.append(mk('window-beyond-address-space:end', [('org', C(4), None), ('data', '.byte', [V('d0'), V('d1')]), ('org', C(13), None),
                                                      ('data', '.byte', [V('d2'), V('d3')])], 40, address_bits=4))
